@@ -817,3 +817,87 @@ func DominatesInstr(a, b ssa.Instruction) bool {
 	}
 	return a.Block().Dominates(b.Block())
 }
+
+// ---------------------------------------------------------------------------
+// Must-non-nil dataflow for a field access path
+
+// MustNonNilField reports whether base.field is known non-nil just before
+// instruction at on every path from the function entry: established by a
+// store of a freshly made value, or by a branch on `base.field != nil`
+// (== nil on the other edge); killed by any other store to the field.
+func MustNonNilField(f *ssa.Function, at ssa.Instruction, field *types.Var, base string) bool {
+	isField := func(addr ssa.Value) bool {
+		fa, ok := addr.(*ssa.FieldAddr)
+		return ok && fieldVar(fa) == field && AccessPath(fa.X) == base
+	}
+	isLoad := func(v ssa.Value) bool {
+		fld, b := LoadedField(v)
+		return fld == field && b != nil && AccessPath(b) == base
+	}
+	fresh := func(v ssa.Value) bool {
+		switch v.(type) {
+		case *ssa.MakeMap, *ssa.MakeSlice, *ssa.MakeChan, *ssa.Alloc, *ssa.MakeClosure, *ssa.MakeInterface:
+			return true
+		}
+		return false
+	}
+	// transfer within a block up to (not including) stop
+	transfer := func(b *ssa.BasicBlock, in bool, stop ssa.Instruction) bool {
+		cur := in
+		for _, ins := range b.Instrs {
+			if ins == stop {
+				return cur
+			}
+			if st, ok := ins.(*ssa.Store); ok && isField(st.Addr) {
+				cur = fresh(st.Val)
+			}
+		}
+		return cur
+	}
+	edge := func(b *ssa.BasicBlock, succIdx int, out bool) bool {
+		ifi, ok := b.Instrs[len(b.Instrs)-1].(*ssa.If)
+		if !ok {
+			return out
+		}
+		for _, a := range atomsOf(ifi.Cond, succIdx == 0) {
+			if a.Op != token.EQL && a.Op != token.NEQ {
+				continue
+			}
+			x, y := a.X, a.Y
+			if IsNilConst(x) {
+				x, y = y, x
+			}
+			if IsNilConst(y) && isLoad(x) {
+				return a.Op == token.NEQ
+			}
+		}
+		return out
+	}
+	in := map[*ssa.BasicBlock]bool{}
+	for _, b := range f.Blocks {
+		in[b] = true
+	}
+	in[f.Blocks[0]] = false
+	for changed := true; changed; {
+		changed = false
+		for _, b := range f.Blocks {
+			if b != f.Blocks[0] && len(b.Preds) > 0 {
+				v := true
+				for _, p := range b.Preds {
+					idx := 0
+					for i, s := range p.Succs {
+						if s == b {
+							idx = i
+						}
+					}
+					v = v && edge(p, idx, transfer(p, in[p], nil))
+				}
+				if v != in[b] {
+					in[b] = v
+					changed = true
+				}
+			}
+		}
+	}
+	return transfer(at.Block(), in[at.Block()], at)
+}
